@@ -131,8 +131,8 @@ glm::mat<Cn, Rn, T, Q> in_mat(C& c, int arg) { glm::mat<Cn, Rn, T, Q> m; for (in
 // quaternion components are numbered x=0, y=1, z=2, w=3 whatever the storage order
 template<class T, glm::qualifier Q = glm::defaultp, class C>
 glm::qua<T, Q> in_qua(C& c, int arg) { glm::qua<T, Q> q; q.x = c.template in<T>(arg, 0); q.y = c.template in<T>(arg, 1); q.z = c.template in<T>(arg, 2); q.w = c.template in<T>(arg, 3); return q; }
-template<class C, int L, class T, glm::qualifier Q> void out_vec(C& c, glm::vec<L, T, Q> const& v) { for (int i = 0; i < L; ++i) c.out(v[i]); }
-template<class C, int Cn, int Rn, class T, glm::qualifier Q> void out_mat(C& c, glm::mat<Cn, Rn, T, Q> const& m) { for (int i = 0; i < Cn; ++i) for (int j = 0; j < Rn; ++j) c.out(m[i][j]); }
+template<class C, glm::length_t L, class T, glm::qualifier Q> void out_vec(C& c, glm::vec<L, T, Q> const& v) { for (glm::length_t i = 0; i < L; ++i) c.out(v[i]); }
+template<class C, glm::length_t Cn, glm::length_t Rn, class T, glm::qualifier Q> void out_mat(C& c, glm::mat<Cn, Rn, T, Q> const& m) { for (glm::length_t i = 0; i < Cn; ++i) for (glm::length_t j = 0; j < Rn; ++j) c.out(m[i][j]); }
 template<class C, class T, glm::qualifier Q> void out_qua(C& c, glm::qua<T, Q> const& q) { c.out(q.x); c.out(q.y); c.out(q.z); c.out(q.w); }
 
 // ---------------------------------------------------------------------------- registry
